@@ -624,6 +624,92 @@ func invalidCopyRun(stream uint64, cache, n int, blocking bool) (problem string,
 	return "", false
 }
 
+// directInterleaveRun: blocks ahead of the tip are parked in the idle queue, the
+// missing next block is then added to the ledger directly (as consensus does,
+// bypassing the queue), and the network goes on delivering only newer blocks -
+// none of them "the next one" at the moment it is put. Every such Put must
+// still get the parked blocks through: the ledger has to reach the highest
+// contiguous block it was given. Returns "" or what went wrong; stalled tells
+// that the height stopped moving (decided by the caller's three-attempt rule).
+func directInterleaveRun(stream uint64, cache, rounds int, blocking bool) (problem string, stalled bool, parked int) {
+	log := &addLog{}
+	c := &fakeChain{log: log, dr: rng.New(stream*64 + 59), level: int(stream % 3)}
+	mode := bqueue.NonBlocking
+	if blocking {
+		mode = bqueue.Blocking
+	}
+	q := bqueue.New[*fblk](c, zap.NewNop(), nil, cache, nil, mode)
+	done := make(chan any, 1)
+	go func() {
+		defer func() { done <- recover() }()
+		q.Run()
+	}()
+	defer q.Discard()
+	r := rng.New(stream*64 + 58)
+	for round := 0; round < rounds; round++ {
+		h := c.h.Load()
+		k := uint32(1 + r.Intn(min(cache-1, 4))) // parked blocks h+2..h+1+k (all inside the window)
+		var order []uint32
+		for i := h + 2; i <= h+1+k; i++ {
+			order = append(order, i)
+		}
+		r.Shuffle(len(order), func(i, j int) { order[i], order[j] = order[j], order[i] })
+		for _, i := range order {
+			_ = q.Put(&fblk{idx: i})
+			parked++
+		}
+		// let the queue goroutine look at them and go back to sleep
+		time.Sleep(time.Duration(50+r.Intn(400)) * time.Microsecond)
+		if c.h.Load() != h {
+			return fmt.Sprintf("height moved from %d to %d although block %d was never given", h, c.h.Load(), h+1), false, parked
+		}
+		if err := c.direct(&fblk{idx: h + 1}); err != nil {
+			return fmt.Sprintf("direct add of block %d: %v", h+1, err), false, parked
+		}
+		// the network delivers a newer block: contiguous with the parked ones, or
+		// further ahead (inside the window where there is room)
+		want := h + 1 + k
+		newer := want + 1
+		if r.Intn(2) == 0 && newer+1 <= h+1+uint32(cache) {
+			newer++
+		} else if newer <= h+1+uint32(cache) {
+			want = newer
+		}
+		if newer <= h+1+uint32(cache) {
+			_ = q.Put(&fblk{idx: newer})
+		} else {
+			_ = q.Put(&fblk{idx: h + 1 + k}) // a duplicate of the last parked block
+		}
+		deadline := time.Now().Add(8 * time.Second)
+		for c.h.Load() < want {
+			if time.Now().After(deadline) {
+				return fmt.Sprintf("blocks %d..%d were parked in the queue, block %d was added directly, block %d was put afterwards: the height stays at %d instead of reaching %d (cache %d)", h+2, h+1+k, h+1, newer, c.h.Load(), want, cache), true, parked
+			}
+			time.Sleep(200 * time.Microsecond)
+		}
+		// bring the chain to a clean point: everything up to the newest given block
+		for c.h.Load() < newer {
+			_ = q.Put(&fblk{idx: c.h.Load() + 1})
+			if time.Now().After(deadline) {
+				return fmt.Sprintf("re-offered next blocks do not get through, height %d", c.h.Load()), true, parked
+			}
+			time.Sleep(200 * time.Microsecond)
+		}
+	}
+	recs := log.snapshot()
+	if sig, detail, _, _ := checkLog(recs, cache); sig != "" {
+		return sig + ": " + detail, false, parked
+	}
+	select {
+	case x := <-done:
+		if x != nil {
+			return fmt.Sprintf("queue.Run panicked: %v", x), false, parked
+		}
+	default:
+	}
+	return "", false, parked
+}
+
 // chainSource is a pre-built chain the real-ledger runs draw blocks from.
 type chainSource struct {
 	proto func(*config.Blockchain)
@@ -836,6 +922,35 @@ func queuePart(t *testing.T, run *ev.Run) {
 			confirmed++
 		case problem != "":
 			run.Violation("queue:invalid-copy:"+strings.SplitN(problem, ":", 2)[0], id, problem, map[string]any{"cache": cache, "blocks": n})
+		case attempts > 1:
+			run.Inconclusive("%s: %d stalled attempt(s) before a clean one", id, attempts-1)
+		}
+	}
+	// parked blocks, the missing one added directly, only newer blocks afterwards
+	confirmed = 0
+	for i := 0; i < ev.Pick(24, 400) && confirmed < 2; i++ {
+		id := fmt.Sprintf("queue/direct-interleave/%d", i)
+		if !run.Want(id) {
+			continue
+		}
+		r := rng.New(uint64(i) + 800000)
+		cache := []int{2, 3, 4, 8, 16}[r.Intn(5)]
+		var problem string
+		stalled := true
+		attempts, parked := 0, 0
+		for stalled && attempts < 3 {
+			attempts++
+			problem, stalled, parked = directInterleaveRun(uint64(i)+800000+uint64(attempts)*100000, cache, 6+r.Intn(10), i%4 == 3)
+		}
+		run.Case(fmt.Sprintf("direct-interleave/cache=%d/blocking=%v", cache, i%4 == 3), true)
+		run.Obs("queue_direct_interleave_runs", 1)
+		run.Obs("queue_blocks_parked_before_a_direct_add", int64(parked))
+		switch {
+		case stalled:
+			run.Violation("queue:parked-blocks-stuck-after-direct-add-of-the-missing-one", id, "three attempts: "+problem, map[string]any{"cache": cache, "attempts": attempts})
+			confirmed++
+		case problem != "":
+			run.Violation("queue:direct-interleave:"+strings.SplitN(problem, ":", 2)[0], id, problem, map[string]any{"cache": cache})
 		case attempts > 1:
 			run.Inconclusive("%s: %d stalled attempt(s) before a clean one", id, attempts-1)
 		}
